@@ -65,6 +65,8 @@ inductive Act where
   | ok (c : Nat)          -- ... applies it if it has not yet, and answers nil
   | err (c : Nat)         -- the daemon answers an error
   | lose (c : Nat)        -- the daemon drops the pin behind the tracker's back
+  | race (d : Act) (i : Act)  -- the daemon answers (`ok` / `err`) while instruction `i` is being issued:
+                              -- the two are not ordered
   deriving DecidableEq, Repr
 
 inductive RetCode where
@@ -81,21 +83,34 @@ def healthyAct : Act → Bool
   | .effect _ | .ok _ => true
   | _ => false
 
-/-- last sentence, per instruction -/
+/-- the instruction of an action, if it is one -/
+def instrOf : Act → Act
+  | .race _ i => i
+  | a => a
+
+def isRace : Act → Bool
+  | .race _ _ => true
+  | _ => false
+
+/-- last sentence, per instruction: an error return comes with an error status; a nil return means the
+    instruction is queued or in progress. When a daemon answer races with the instruction (`race`), the
+    operation may already have finished by the time the status is read: then the daemon matches, or the
+    failure shows as an error status. -/
 def reported (n : Nat) (f : Frame) : Bool :=
-  match f.act with
+  let settled (c : Nat) : Bool := isRace f.act && (daemonMatches f.obs c || isError (f.obs.status c))
+  match instrOf f.act with
   | .track p =>
     match p.kind with
     | .sharded => f.ret == .nil
     | .remote => (f.ret == .nil || f.ret == .pending) && f.obs.status p.cid == .remote
     | .here =>
-      (f.ret == .nil && (f.obs.status p.cid == .pinQueued || f.obs.status p.cid == .pinning))
+      (f.ret == .nil && (f.obs.status p.cid == .pinQueued || f.obs.status p.cid == .pinning || settled p.cid))
       || (f.ret == .full && isError (f.obs.status p.cid))
   | .untrack c =>
-    (f.ret == .nil && (f.obs.status c == .unpinQueued || f.obs.status c == .unpinning))
+    (f.ret == .nil && (f.obs.status c == .unpinQueued || f.obs.status c == .unpinning || settled c))
     || (f.ret == .full && isError (f.obs.status c))
   | .recover c =>
-    (f.ret == .nil && !(f.obs.status c == .pinError || f.obs.status c == .unpinError))
+    (f.ret == .nil && (!(f.obs.status c == .pinError || f.obs.status c == .unpinError) || isRace f.act))
     || (f.ret == .full && isError (f.obs.status c))
   | .recoverAll =>
     (f.ret == .nil && (List.range n).all (fun c => !(f.obs.status c == .pinError || f.obs.status c == .unpinError)))
@@ -106,11 +121,11 @@ def sameCall (a b : CallObs) : Bool := a.kind == b.kind && a.cid == b.cid
 
 /-- Pin calls that reached the daemon because of this recover carry the recorded pin -/
 def usesRecorded (before : Obs) (f : Frame) : Bool :=
+  let fresh (k : CallObs) : Bool := k.kind == .pin && !before.calls.any (sameCall k)
   match f.act with
-  | .recover _ | .recoverAll =>
-    f.obs.calls.all (fun k =>
-      k.kind != .pin || before.calls.any (sameCall k) || (k.pin.isSome && k.pin == f.obs.shared k.cid))
-  | _ => true
+  | .recover c => f.obs.calls.all (fun k => !(fresh k && k.cid == c) || (k.pin.isSome && k.pin == f.obs.shared k.cid))
+  | .recoverAll => f.obs.calls.all (fun k => !fresh k || (k.pin.isSome && k.pin == f.obs.shared k.cid))
+  | _ => true   -- in a race a freed worker may bring an older operation to the daemon in the same frame
 
 /-- follow successful daemon answers up to the first quiescent point -/
 def healthyToQuiescent (n : Nat) : Obs → List Frame → Option Obs
